@@ -8,7 +8,7 @@ HARNESS = "rx2"
 HARNESS_ARGS = ["c10"]
 ALLOWED_AXIOMS = []
 RUN_IMPORT = "Reactive.AsyncRun"
-READY = False
+READY = True
 
 RULE = ("cases drawn from one PRNG (VERIF_SEED): one async node of a random source shape (0: fetcher reads two signals; 1: two "
         "memos; 2: memo m3 then memo m2 with m3 depending on m2; 3: resource-like, a hand-tracked memo over (refetch counter, "
